@@ -1,5 +1,5 @@
 (* Codec/Props_codec.v — property theorems of the codec area (statement + `exact lemma` only). *)
-From FlacCodec Require Import Parser_proofs Wf Spec Roundtrip_sub Roundtrip_hdr Roundtrip_frame Agree_frame Totality Progress Stream EncChoice Damage Prefix Interrupted Inverse Inverse_frame.
+From FlacCodec Require Import Parser_proofs Wf Spec Roundtrip_sub Roundtrip_hdr Roundtrip_frame Agree_frame Totality Progress Stream EncChoice Damage Prefix Interrupted Inverse Inverse_frame StreamRd StreamRd_proofs.
 From FlacBase Require Import Crc.
 Open Scope N_scope.
 
@@ -54,6 +54,27 @@ Proof. exact frame_inv. Qed.
 Theorem C17_subframe_write_inverts_parse : forall bs bps s sf r,
   struct_subframe bs bps s = Ok (sf, r) -> s = write_subframe bps sf ++ r.
 Proof. exact struct_subframe_inv. Qed.
+
+(* C16 on the scanning model of FlacStreamReader::read.
+   (a) no fabricated frame: every frame returned starts at a sync code somewhere in the source and
+       passed CRC-8 and CRC-16 there (dec_frame = Ok), `rest` being what follows it;
+   (b) bytes that do not contain the sync pattern FF F8|F9 cost no frame;
+   (c) a frame with a self-describing header decodes from its own header alone (C03 with si = None). *)
+Theorem C16_no_fabricated_frame : forall fuel bytes h chans rest,
+  scan fuel bytes = Ok (h, chans, rest) ->
+  exists pre b2 tl, bytes = pre ++ 255 :: b2 :: tl /\ b2 / 2 = 124 /\
+                    dec_frame None no_check (255 :: b2 :: tl) = Ok (h, chans, rest).
+Proof. exact scan_gate. Qed.
+Theorem C16_syncless_garbage_costs_no_frame : forall g b2 tl x fuel,
+  syncless g = true -> b2 / 2 = 124 ->
+  dec_frame None no_check (255 :: b2 :: tl) = Ok x ->
+  (length (g ++ 255%N :: b2 :: tl) < fuel)%nat ->
+  scan fuel (g ++ 255 :: b2 :: tl) = Ok x.
+Proof. exact scan_skips_syncless. Qed.
+Theorem C16_self_describing : forall f bytes rest,
+  wf_frame None f = true -> spec_frame f = true -> write_frame f = Some bytes ->
+  dec_frame None no_check (bytes ++ rest) = Ok (f_hdr f, sem_frame f, rest).
+Proof. intros. apply dec_frame_agree; auto. Qed.
 
 (* C04: no byte string makes the frame decoder panic ... *)
 Theorem C04_frame_total : forall si chk bytes,
